@@ -101,6 +101,27 @@ theorem parseLines_filter : ∀ (ls : List Str) (start : Bool) (name : Str) (acc
           · rw [parseLines_filter ls]
           · exact parseLines_filter ls _ _ _
 
+/-- REFINEMENT: the channel operations of the goroutine's loop are one send per record of `parseLines`, in the
+same order, followed by exactly one close — for every token list and every loop state -/
+theorem loopOps_eq : ∀ (ls : List Str) (start : Bool) (name : Str) (acc : List Str),
+    loopOps start name acc ls = (parseLines start name acc ls).map (Chan.Op.send 0) ++ [Chan.Op.close 0]
+  | [], _, _, _ => rfl
+  | [] :: ls, start, name, acc => by simpa [loopOps, parseLines] using loopOps_eq ls start name acc
+  | (c :: tl) :: ls, start, name, acc => by
+    simp only [loopOps, parseLines]
+    split
+    · exact loopOps_eq ls _ _ _
+    · split
+      · exact loopOps_eq ls _ _ _
+      · split
+        · exact loopOps_eq ls _ _ _
+        · split
+          · simp [loopOps_eq ls false tl []]
+          · exact loopOps_eq ls _ _ _
+
+theorem producer_eq (m : Nat) (s : Str) :
+    producer m s = (parse m s).map (Chan.Op.send 0) ++ [Chan.Op.close 0] := loopOps_eq _ _ _ _
+
 /-- a line the loop skips: empty or white space only, or a `;` comment -/
 def Ignored (l : Str) : Prop := blankLine l = true ∨ ∃ t, l = ';' :: t
 
